@@ -101,7 +101,7 @@ fn explore_depth<S: Subject>(name: &'static str, cfgs: &[S::Cfg], depth: usize) 
         let s = S::fresh(cfg);
         for a in s.ops() {
             let mut s2 = S::fresh(cfg);
-            let _ = s2.apply(&a);
+            let _ = std::panic::catch_unwind(std::panic::AssertUnwindSafe(|| s2.apply(&a)));
             for b in s2.ops() {
                 items.push((cfg.clone(), vec![a.clone(), b]));
             }
@@ -127,7 +127,7 @@ fn explore_depth<S: Subject>(name: &'static str, cfgs: &[S::Cfg], depth: usize) 
                 if i == 0 || items[i - 1].1[0..1].iter().map(|o| format!("{:?}", o)).collect::<Vec<_>>() != p1.iter().map(|o| format!("{:?}", o)).collect::<Vec<_>>() || format!("{:?}", items[i - 1].0) != format!("{:?}", cfg) {
                     // first item of this (cfg, first op): account for the depth-1 node
                     let mut s = S::fresh(cfg);
-                    match s.apply(&p1[0]) {
+                    match std::panic::catch_unwind(std::panic::AssertUnwindSafe(|| s.apply(&p1[0]))).unwrap_or_else(|_| Err("the implementation panicked".to_string())) {
                         Ok(o) => {
                             acc.transitions += 1;
                             acc.obs.insert(h(&o));
